@@ -20,9 +20,16 @@ def _score(a):
     return s
 
 
+def _known_key(c):
+    """The key known for a relay as configured for the auction: the public_key of the relay configuration, else the
+    key spelled in the user-information part of the relay address (Auction.tla: KeyOf)."""
+    return {"config": "K1", "config2": "K2"}.get(c["key"]) or c.get("sp", "none")
+
+
 def _eligible(a, c):
+    k = _known_key(c)
     return (a["kind"] == "bid" and a["val"] >= c["min"] and a["val"] != 0 and not a["feeZero"] and a["tsOk"]
-            and (c["key"] == "none" or a["sig"] == "valid"))
+            and (k == "none" or (a["sig"], k) in (("valid", "K1"), ("invalid", "K2"))))
 
 
 NOISE = {"scenarios": 0, "repeated_for_noise": 0, "widened": 0}
@@ -85,6 +92,14 @@ def _shape(steps):
         "min_changes": any(len({c[r]["min"] for c in cfgs}) > 1 for r in range(nrel)),
         "key_changes": any(len({c[r]["key"] for c in cfgs}) > 1 for r in range(nrel)),
         "tab_changes": len({a["tab"] for a, _ in aus}) > 1,
+        # a relay location written under two spellings of its address on the instance (by auctions or other users
+        # of the client cache), and such a relay whose known key differs between two auctions
+        "spelling_changes": any(len({c[r].get("sp", "none") for c in cfgs}
+                                    | {st["sp"] for st in steps if st["ev"] == "Fetch" and st["r"] == r + 1}) > 1
+                                for r in range(nrel)),
+        "known_key_changes": any(len({_known_key(c[r]) for c in cfgs}) > 1 for r in range(nrel)),
+        "fetch_by_another_user": any(st["ev"] == "Fetch" for st in steps),
+        "wired": steps[0].get("family") == "wired",
     }
 
 
@@ -93,19 +108,17 @@ def sig_of(s):
     strategy follows an eligible bid with one of no higher value but a different score."""
     steps = s["steps"]
     variant = steps[0]["variant"]
-    prov = steps[0].get("prov", [])
     nonimproving = False
     for au, dels in _auctions(steps):
         best = {}
         for st in dels:
             c = au["cfg"][st["r"] - 1]
-            known = c["key"] == "config" or (st["r"] - 1 < len(prov) and prov[st["r"] - 1])
-            if st["ph"] < 2 and _eligible(st["a"], {"min": c["min"], "key": "config" if known else "none"}):
+            if st["ph"] < 2 and _eligible(st["a"], c):
                 r = st["r"]
                 if r in best and st["a"]["val"] <= best[r]:
                     nonimproving = True
                 best[r] = max(best.get(r, 0), st["a"]["val"])
-    sig = {"variant": variant, "relay_repeats_with_no_higher_value": nonimproving and variant == "deadline"}
+    sig = {"variant": variant, "family": steps[0].get("family", "fake"), "relay_repeats_with_no_higher_value": nonimproving and variant == "deadline"}
     sig.update(_shape(steps))
     return sig
 
@@ -125,8 +138,10 @@ def nontrivial(s, rows):
     return False
 
 
-MC_QUICK = [("MC_Auction.cfg", 4), ("MC_Auction_deadline.cfg", 4), ("MC_Auction_hist.cfg", 4), ("MC_Auction_overlap.cfg", 4)]
-MC_THOROUGH = [("MC_Auction_big.cfg", 8), ("MC_Auction_deadline_big.cfg", 8), ("MC_Auction_overlap_big.cfg", 8)]
+MC_QUICK = [("MC_Auction.cfg", 4), ("MC_Auction_deadline.cfg", 4), ("MC_Auction_hist.cfg", 4), ("MC_Auction_overlap.cfg", 4),
+            ("MC_Auction_clients.cfg", 4)]
+MC_THOROUGH = [("MC_Auction_big.cfg", 8), ("MC_Auction_deadline_big.cfg", 8), ("MC_Auction_overlap_big.cfg", 8),
+               ("MC_Auction_clients_big.cfg", 8)]
 
 # Vacuity self-checks (spec/Auction.tla, Deviation): designs that keep state on the instance which the property
 # does not make persistent.  Each is right on every fresh instance (one auction) resp. on sequential histories -
@@ -136,11 +151,13 @@ MUST_VIOLATE = [
     ("MC_Auction_dev_KeyMemo.cfg", "the need for a signature check remembered per relay address"),
     ("MC_Auction_dev_TabMemo.cfg", "the builder catalogue remembered on the instance"),
     ("MC_Auction_dev_SharedBest.cfg", "the best score so far kept in the service, auctions overlapping"),
+    ("MC_Auction_dev_ClientByLoc.cfg", "the relay client cache keyed by the relay's location: the client (and key) of the spelling "
+                                       "used first serves every spelling (seeded/C09-builder-client-cache-drops-relay-pubkey)"),
     ("MC_Auction_reach_hist.cfg", "(reachability witness) three auctions completing on one instance"),
     ("MC_Auction_reach_overlap.cfg", "(reachability witness) an auction returning a winner while another has one"),
 ]
 MUST_PASS = ["MC_Auction_fresh_MinMemo.cfg", "MC_Auction_fresh_KeyMemo.cfg", "MC_Auction_fresh_TabMemo.cfg",
-             "MC_Auction_seq_SharedBest.cfg"]
+             "MC_Auction_seq_SharedBest.cfg", "MC_Auction_fresh_ClientByLoc.cfg"]
 PROPERTY_INVARIANTS = ("WinnerIsArgmax", "OnlyEligibleWin", "ProvidersOfferedWinner", "NoWinnerIffNone",
                        "ParticipationSound", "ArrivedConsidered", "CacheRight", "ServedRight",
                        "NeverThreeDone", "NeverBothWinOverlapped")
@@ -162,11 +179,15 @@ def model(v, tier):
     generation.  Returns the histories."""
     from concurrent.futures import ThreadPoolExecutor
     nb, nd = (150, 90) if tier == "quick" else (1500, 800)
+    wb, wd = (45, 30) if tier == "quick" else (500, 300)      # wired family
     mcs = list(MC_QUICK) + (MC_THOROUGH if tier == "thorough" else [])
-    with ThreadPoolExecutor(max_workers=6) as ex:
+    with ThreadPoolExecutor(max_workers=8) as ex:
         fb = ex.submit(vf.tlc_scenarios, PID, "Scen_Auction", "Scen_Auction.cfg", num=int(nb * 1.05), depth=80, name="scen-best")
         fd = ex.submit(vf.tlc_scenarios, PID, "Scen_Auction", "Scen_Auction_deadline.cfg", num=int(nd * 1.05), depth=120,
                        name="scen-deadline")
+        fwb = ex.submit(vf.tlc_scenarios, PID, "Scen_Auction", "Scen_Auction_wired.cfg", num=int(wb * 1.05), depth=80, name="scen-wired-best")
+        fwd = ex.submit(vf.tlc_scenarios, PID, "Scen_Auction", "Scen_Auction_wired_deadline.cfg", num=int(wd * 1.05), depth=120,
+                        name="scen-wired-deadline")
         fm = [ex.submit(vf.tlc_exhaustive, PID, "MC_Auction", cfg, workers=w, timeout=1800,
                         coverage=(cfg == "MC_Auction_big.cfg")) for cfg, w in mcs]
         fs = [ex.submit(_selfcheck, cfg, what) for cfg, what in MUST_VIOLATE] + [ex.submit(_selfcheck, cfg, None) for cfg in MUST_PASS]
@@ -174,15 +195,20 @@ def model(v, tier):
             v.add_mc(f.result())
         for f in fs:
             vf.log(f.result())
-        hs = fb.result()[:nb] + fd.result()[:nd]
+        hs = fb.result()[:nb] + fd.result()[:nd] + fwb.result()[:wb] + fwd.result()[:wd]
     return [{"sc": i + 1, "steps": h} for i, h in enumerate(hs)]
 
 
 def run(tier):
     v = vf.Verdict(PID, tier)
     v.assumptions = [
-        "relays, execution configuration, accounts, chain time and scheduler are scripted fakes at the service's interfaces; "
+        "fake family: relays, execution configuration, accounts, chain time and scheduler are scripted fakes at the service's "
+        "interfaces (one in-process relay client per spelling of a relay address, registered in the client cache); "
         "bids are real signed VersionedSignedBuilderBid objects (bellatrix/capella/deneb), the strategies' own checks run",
+        "wired family: real execution configuration V2 (parsed from a generated document), real block relay service with the "
+        "real strategy handed to it as main.go does, real util.FetchBuilderClient and go-builder-client HTTP clients, relay "
+        "servers (httptest) one per relay location that sign with the scenario's key; at most one spelling of a relay location "
+        "per auction (a proposer's configuration lists a relay once); the builder catalogue is the service's (one per history)",
         "one scenario is one history on one instance: a real strategy service and a real block relay service created for the "
         "history and used for all its auctions; the builder catalogue of an auction is handed to the strategy by a wrapper "
         "between the block relay service and the strategy (the service itself passes the catalogue it was created with)",
@@ -195,7 +221,8 @@ def run(tier):
     shapes = {}
     for s in sc:
         sh = _shape(s["steps"])
-        for k in ("overlap", "serve_while_open", "min_changes", "key_changes", "tab_changes"):
+        for k in ("overlap", "serve_while_open", "min_changes", "key_changes", "tab_changes", "spelling_changes",
+                  "known_key_changes", "fetch_by_another_user", "wired"):
             shapes[k] = shapes.get(k, 0) + (1 if sh[k] else 0)
         shapes["auctions"] = shapes.get("auctions", 0) + sh["auctions"]
     vf.log("histories: %d (%s)" % (len(sc), ", ".join("%s %d" % kv for kv in sorted(shapes.items()))))
